@@ -4,6 +4,8 @@ copy-and-paste slip (`remove_file(&self.log_path)` twice instead of once for the
 rules/dupcalls_frozen.json holds, per function and callee, how many call sites share their canonical argument list with
 an earlier one *that dominates them* (one after the other on the same path; the same call in two exclusive branches
 is not counted) on the pinned tree (tools/freeze_dupcalls.py); the rule reports a function where that number has grown.
+The same count is kept for match arms that do exactly the same (same repository calls with the same
+arguments, same values built): `Consumer => Consumer::new(id), ConsumerGroup => Consumer::new(id)`.
 Calls without arguments, calls inside macros and callees from the logging / formatting machinery are not counted."""
 import json, os
 import argsel
@@ -47,6 +49,36 @@ def collect(ctx):
             if dup:
                 out.setdefault(fn, {})
                 out[fn][callee] = out[fn].get(callee, 0) + dup
+        # arms of one match that do exactly the same (the same calls with the same arguments, the same values built):
+        # `Consumer => Consumer::new(id), ConsumerGroup => Consumer::new(id)` — a copied arm that was not adapted
+        from lib import arm_regions
+        same = 0
+        for bb in sorted(b.reach):
+            t = b.term(bb)
+            if t.get('t') != 'switch' or t.get('ty') == 'bool' or t.get('x', '').startswith('m:') or len(t.get('arms', [])) + 1 < 2:
+                continue
+            if b._discr_type(bb, t) is None:
+                continue
+            sigs = []
+            for v, blocks in arm_regions(b, bb).items():
+                sig = []
+                for x in sorted(blocks):
+                    for si, st in enumerate(b.stmts(x)):
+                        rv = st.get('rv')
+                        if rv and rv['r'] == 'agg' and rv.get('kind') == 'adt' and not st.get('x', '').startswith('m:') and (rv.get('adt') or '').startswith(('iggy::', 'server::')):
+                            sig.append(('agg', canon(b._pexpr_rvalue(rv, 0, frozenset(), (x, si)), 0, 2)))
+                    tt = b.term(x)
+                    if tt.get('t') == 'call' and not tt.get('x', '').startswith('m:'):
+                        nm = tt.get('res') or tt.get('fn') or ''
+                        if nm.lstrip('<').startswith(('iggy::', 'server::')):
+                            sig.append((nm, ', '.join(canon(b.pexpr_operand(a, 0, frozenset(), (x, 't')), 0, 2) for a in tt.get('args', []))))
+                if sig:
+                    sigs.append(tuple(sig))
+            same += len(sigs) - len(set(sigs))
+        if same:
+            fn = ctx.user_fn_of(d)
+            out.setdefault(fn, {})
+            out[fn]['<identical match arms>'] = out[fn].get('<identical match arms>', 0) + same
     return out
 
 
@@ -64,7 +96,9 @@ def check(ctx, rep, prop):
             have, allowed = cur.get(fn, {}).get(callee, 0), fr.get(fn, {}).get(callee, 0)
             n += 1
             ok = have <= allowed
-            rep.ob(rid, fn, 'repeated calls of ' + callee.split('::')[-1], ok, None, None if ok else
+            what = 'identical match arms' if callee.startswith('<identical') else 'repeated calls of ' + callee.split('::')[-1]
+            rep.ob(rid, fn, what, ok, None, None if ok else
+                   ('%d arms of a match in this function do exactly the same as another arm (pinned tree: %d): an arm was copied without being adapted' % (have, allowed)) if callee.startswith('<identical') else
                    '%d call sites of %s in this function repeat the arguments of an earlier one (pinned tree: %d): a line was copied without being adapted' % (have, callee, allowed))
     rep.ob(rid, '<scan>', 'functions scanned', True, None, '%d functions with repeated calls in the workspace' % len(cur))
     return n
